@@ -9,6 +9,7 @@ package mcp
 import (
 	"context"
 	"encoding/json"
+	"errors"
 	"fmt"
 	"net/http"
 	"sync"
@@ -361,6 +362,12 @@ func (h *httpServerHandler) handlePostRequest(ctx context.Context, w http.Respon
 		}
 		if err := sseResponder.respond(ctx, w, r, jsonrpcResponse, session); err != nil {
 			h.logger.Errorf("Failed to send SSE success response: %v", err)
+			if errors.Is(err, ErrResponseSerialization) {
+				errorResp := newJSONRPCErrorResponse(req.ID, ErrCodeInternal, err.Error(), nil)
+				if err := sseResponder.respond(ctx, w, r, errorResp, session); err != nil {
+					h.logger.Errorf("Failed to send SSE serialization error response: %v", err)
+				}
+			}
 		}
 		return
 	}
@@ -395,6 +402,12 @@ func (h *httpServerHandler) handlePostRequest(ctx context.Context, w http.Respon
 	}
 	if err := responder.respond(respCtx, w, r, jsonrpcResponse, session); err != nil {
 		h.logger.Errorf("Failed to send success response: %v", err)
+		if errors.Is(err, ErrResponseSerialization) {
+			errorResp := newJSONRPCErrorResponse(req.ID, ErrCodeInternal, err.Error(), nil)
+			if err := responder.respond(respCtx, w, r, errorResp, session); err != nil {
+				h.logger.Errorf("Failed to send serialization error response: %v", err)
+			}
+		}
 	}
 }
 
